@@ -256,6 +256,12 @@ def job_dispatch(job):
     # numeric overrides: exactly the named constant changes
     if ref:
         c0, t0 = ref
+        singles = {}
+
+        def same(a, b):
+            if isinstance(a, (int, float)) and isinstance(b, (int, float)) and not isinstance(a, bool) and not isinstance(b, bool):
+                return a == b
+            return repr(a) == repr(b)
         for key, vals in options.OVERRIDES.items():
             for v in vals:
                 o = dict(base)
@@ -289,6 +295,24 @@ def job_dispatch(job):
                     good = changed == want and c1[key + "_start"] == int(v)
                 if not good:
                     bad("override_changes_only_named_input", "%s=%s" % (key, v), "constants that changed: %s (expected %s)" % (changed, want), o)
+                singles.setdefault(key, (v, changed, c1))
+        # two overrides in one dictionary: each still changes exactly its own inputs, to the same values as when given alone
+        for (k1, (v1, ch1, c1)), (k2, (v2, ch2, c2)) in itertools.combinations(sorted(singles.items()), 2):
+            if set(ch1) & set(ch2):
+                continue
+            for order in ((k1, v1, k2, v2), (k2, v2, k1, v1)):
+                o = dict(base)
+                o[order[0]] = order[1]
+                o[order[2]] = order[3]
+                r = run("%s=%s & %s=%s" % order, o, True)
+                if not r:
+                    continue
+                c12, _ = r
+                changed = sorted(k for k in set(c0) | set(c12) if not same(c0.get(k), c12.get(k)))
+                good = changed == sorted(set(ch1) | set(ch2)) and all(same(c12.get(k), c1.get(k)) for k in ch1) and all(same(c12.get(k), c2.get(k)) for k in ch2)
+                if not good:
+                    bad("override_changes_only_named_input", "%s=%s & %s=%s" % order,
+                        "both overrides given together: constants that changed %s; given alone they change %s and %s (and to the same values)" % (changed, ch1, ch2), o)
     return {"n": n, "v": vs, "outs": len(outs)}
 
 
